@@ -25,6 +25,9 @@ class Task(object):
     def _run(self):
         self.sem.acquire()
         try:
+            if self.coop.preempt is not None:
+                import sys
+                sys.settrace(self.coop._tracer)
             self.fn()
         except BaseException as e:  # noqa
             self.exc = e
@@ -41,6 +44,25 @@ class Coop(object):
         self.trace = []        # (task index, tag) of every completed marked operation
         self.choices = []
         self.stuck_after = 8.0
+        self.preempt = None    # (path fragments, probability, rng): additional scheduling points at source LINES of the matching files
+
+    def preempt_lines(self, fragments, prob, rng):
+        """line-level preemption: inside functions of files whose path contains one of `fragments`, every executed line is a scheduling point
+        with probability `prob` (decided by `rng`, so the run is reproducible).  CPython may switch threads between any two bytecodes; the
+        instrumented points (locks, queues, writes) cover the operations on shared state the code is KNOWN to have — this covers the rest."""
+        self.preempt = (tuple(fragments), prob, rng)
+
+    def _tracer(self, frame, event, arg):
+        frags, prob, rng = self.preempt
+        fn = frame.f_code.co_filename
+        if not any(f in fn for f in frags):
+            return None
+
+        def local(frame, event, arg):
+            if event == "line" and rng.random() < prob and self.me() is not None:
+                self.yield_()
+            return local
+        return local
 
     def spawn(self, fn):
         t = Task(self, len(self.tasks), fn)
